@@ -381,9 +381,9 @@ func ruleR06d(h *H) {
 			}
 		})
 		if leak {
-			h.Bad(rule, "version counter on failed apply in "+ir.FuncName(fn), h.pos(at), "ProcessWrite can fail after versionIdTracker.Add without restoring the counter: the in-memory counter runs ahead of the persisted one, so a replica that restarts assigns different version ids than one that does not")
+			h.Bad(rule, "version counter on failed apply in the kv.DB.ProcessWrite implementation", h.pos(at), "ProcessWrite can fail after versionIdTracker.Add without restoring the counter: the in-memory counter runs ahead of the persisted one, so a replica that restarts assigns different version ids than one that does not")
 		} else {
-			h.OK(rule, "version counter on failed apply in "+ir.FuncName(fn), h.P.Pos(fn.Pos()), "every failing path restores the counter")
+			h.OK(rule, "version counter on failed apply in the kv.DB.ProcessWrite implementation", h.P.Pos(fn.Pos()), "every failing path restores the counter")
 		}
 	}
 }
